@@ -35,6 +35,26 @@ pub open spec fn has_row_entry<T: Eq + PartialOrd + Send + Sync, A: Clone>(g: Gr
 pub open spec fn preds_are_edges<T: Eq + PartialOrd + Send + Sync, A: Clone>(g: Graph<T, A>, P: Seq<Vec<usize>>) -> bool {
     forall|w: int, k: int| 0 <= w < P.len() && 0 <= k < P[w]@.len() ==> has_row_entry(g, #[trigger] P[w]@[k], w as usize)
 }
+// p was settled with a length d (an entry (p, d) of the assignment history) such that d + the weight of a stored traversal entry
+// p -> w IS w's tentative distance (spec-equal when it was set from it, IEEE-equal when it tied with it)
+pub open spec fn tight_pred<T: Eq + PartialOrd + Send + Sync, A: Clone>(g: Graph<T, A>, hist: Seq<(usize, f64)>, seen: Seq<f64>, w: int, p: usize) -> bool {
+    exists|i: int, e: int| 0 <= i < hist.len() && (#[trigger] hist[i]).0 == p && p < g.n() && 0 <= e < g.successors_vec@[p as int]@.len()
+        && (#[trigger] g.successors_vec@[p as int]@[e]).node_index == w
+        && (seen[w] == fadd(hist[i].1, g.successors_vec@[p as int]@[e].weight) || feq(fadd(hist[i].1, g.successors_vec@[p as int]@[e].weight), seen[w]))
+}
+// every entry of every predecessor list is tight (Brandes: P[w] holds the predecessors of w on paths of w's current tentative length)
+pub open spec fn preds_tight<T: Eq + PartialOrd + Send + Sync, A: Clone>(g: Graph<T, A>, hist: Seq<(usize, f64)>, seen: Seq<f64>, P: Seq<Vec<usize>>) -> bool {
+    forall|w: int, k: int| 0 <= w < P.len() && 0 <= k < P[w]@.len() ==> tight_pred(g, hist, seen, w, #[trigger] P[w]@[k])
+}
+pub proof fn lemma_tight_hist_mono<T: Eq + PartialOrd + Send + Sync, A: Clone>(g: Graph<T, A>, h0: Seq<(usize, f64)>, x: (usize, f64), seen: Seq<f64>, w: int, p: usize)
+    requires tight_pred(g, h0, seen, w, p),
+    ensures tight_pred(g, h0.push(x), seen, w, p),
+{
+    let (i, e) = choose|i: int, e: int| 0 <= i < h0.len() && (#[trigger] h0[i]).0 == p && p < g.n() && 0 <= e < g.successors_vec@[p as int]@.len()
+        && (#[trigger] g.successors_vec@[p as int]@[e]).node_index == w
+        && (seen[w] == fadd(h0[i].1, g.successors_vec@[p as int]@[e].weight) || feq(fadd(h0[i].1, g.successors_vec@[p as int]@[e].weight), seen[w]));
+    assert(h0.push(x)[i] == h0[i]);
+}
 // every traversal entry of a node of the visiting order S leads to a node of S or to a node still waiting in `q`
 pub open spec fn order_closed_upto<T: Eq + PartialOrd + Send + Sync, A: Clone>(g: Graph<T, A>, S: Seq<usize>, q: Seq<usize>, cur: int, upto: int) -> bool {
     forall|v: usize, k: int| #[trigger] entry_mark(v, k) && S.contains(v) && v < g.n() && 0 <= k < g.successors_vec@[v as int]@.len() && (v != cur || k < upto)
@@ -45,6 +65,13 @@ pub open spec fn order_covers_reachable<T: Eq + PartialOrd + Send + Sync, A: Clo
     &&& S.contains(source)
     &&& forall|v: usize, k: int| #[trigger] entry_mark(v, k) && S.contains(v) && v < g.n() && 0 <= k < g.successors_vec@[v as int]@.len()
             ==> S.contains(g.successors_vec@[v as int]@[k].node_index)
+}
+// p is exactly one level above w: both have a level (not f64::MAX) and level(w) IEEE-equals level(p) + 1.0
+pub open spec fn one_level_up(lv: Seq<f64>, w: int, p: usize) -> bool {
+    0 <= w < lv.len() && p < lv.len() && !feq(lv[w], f64_max()) && !feq(lv[p as int], f64_max()) && feq(lv[w], fadd(lv[p as int], 1.0f64))
+}
+pub open spec fn preds_one_level_up(lv: Seq<f64>, P: Seq<Vec<usize>>) -> bool {
+    forall|w: int, k: int| 0 <= w < P.len() && 0 <= k < P[w]@.len() ==> one_level_up(lv, w, #[trigger] P[w]@[k])
 }
 pub proof fn lemma_contains_push(s: Seq<usize>, x: usize, y: usize)
     requires s.contains(y) || x == y,
@@ -103,10 +130,18 @@ for adj in row_it: graph.get_successor_nodes_by_index(&v)
         preds_are_edges(*graph, r.P@),
         // [C05.bfs.order_covers_reachable_set]
         order_covers_reachable(*graph, source, r.S@),
+        // [C05.bfs.no_node_visited_twice]
+        r.S@.no_duplicates(),
+        // [C05.bfs.predecessors_are_one_level_up]
+        // every predecessor p listed for w is exactly one level above w (level(w) IEEE-equals level(p) + 1.0)
+        exists|lv: Seq<f64>| lv.len() == graph.n() && #[trigger] preds_one_level_up(lv, r.P@),
 //@ before while let Some(v) = fringe.pop_front() {
     let ghost mut q: Seq<usize> = fringe@;
     proof {
         assert(fringe@[0] == source);
+        axiom_f64_zero_not_max();
+        assert(fringe@ =~= seq![source]);
+        assert((S@ + fringe@) =~= seq![source]);
     }
 //@ loop 1
         invariant
@@ -125,6 +160,10 @@ for adj in row_it: graph.get_successor_nodes_by_index(&v)
             forall|w: int| 0 <= w < graph.n() && !feq(#[trigger] D@[w], f64_max()) ==> S@.contains(w as usize) || fringe@.contains(w as usize),
             order_closed_upto(*graph, S@, fringe@, -1, 0),
             S@.contains(source) || fringe@.contains(source),
+            // [C05.bfs.discovered_once]
+            (S@ + fringe@).no_duplicates(),
+            forall|x: int| 0 <= x < graph.n() ==> ((S@.contains(x as usize) || fringe@.contains(x as usize)) <==> !feq(#[trigger] D@[x], f64_max())),
+            preds_one_level_up(D@, P@),
         ensures
             fringe@.len() == 0,
 //@ before S.push(v);
@@ -132,6 +171,8 @@ for adj in row_it: graph.get_successor_nodes_by_index(&v)
         let ghost S0 = S@;
 //@ after S.push(v);
         proof {
+            assert(q0.len() > 0 && q0[0] == v && fringe@ =~= q0.subrange(1, q0.len() as int));
+            assert((S@ + fringe@) =~= (S0 + q0));
             q = fringe@;
             assert forall|x: usize| #[trigger] q0.contains(x) implies q.contains(x) || x == v by {
                 let j = choose|j: int| 0 <= j < q0.len() && q0[j] == x;
@@ -164,22 +205,66 @@ for adj in row_it: graph.get_successor_nodes_by_index(&v)
                 forall|w: int| 0 <= w < graph.n() && !feq(#[trigger] D@[w], f64_max()) ==> S@.contains(w as usize) || fringe@.contains(w as usize),
                 order_closed_upto(*graph, S@, fringe@, v as int, row_it.index@ as int),
                 S@.contains(source) || fringe@.contains(source),
+                (S@ + fringe@).no_duplicates(),
+                forall|x: int| 0 <= x < graph.n() ==> ((S@.contains(x as usize) || fringe@.contains(x as usize)) <==> !feq(#[trigger] D@[x], f64_max())),
+                preds_one_level_up(D@, P@),
+                D@[v as int] == Dv,
 //@ after let w = adj.node_index;
             proof {
                 assert(graph.successors_vec@[v as int]@[row_it.index@ as int] == *adj);
                 assert(has_row_entry(*graph, v, w));
             }
+//@ before D[w] = vw_dist;
+                let ghost D0 = D@;
+                proof {
+                    // w is undiscovered: it is in neither sequence, no list mentions it as a predecessor and its own list is empty
+                    assert(!S@.contains(w) && !fringe@.contains(w));
+                    axiom_f64_succ_not_max(Dv);
+                    assert(!feq(vw_dist, f64_max()));
+                }
 //@ after fringe.push_back(w);
                 proof {
+                    assert((S@ + fringe@) =~= (S@ + q).push(w));
+                    assert forall|i: int, j: int| 0 <= i < j < (S@ + fringe@).len() implies (S@ + fringe@)[i] != (S@ + fringe@)[j] by {
+                        if j == (S@ + q).len() {
+                            assert((S@ + q)[i] != w) by {
+                                if i < S@.len() { assert(S@[i] == (S@ + q)[i]); } else { assert(q[i - S@.len()] == (S@ + q)[i]); }
+                            }
+                        }
+                    }
+                    assert forall|a: int, k: int| 0 <= a < P@.len() && 0 <= k < P@[a]@.len() implies one_level_up(D@, a, #[trigger] P@[a]@[k]) by {
+                        assert(one_level_up(D0, a, P@[a]@[k]));
+                    }
                     let ghost q1 = q;
                     q = fringe@;
                     assert forall|x: usize| #[trigger] q1.contains(x) implies q.contains(x) by {
                         lemma_contains_push(q1, w, x);
                     }
                     lemma_contains_push(q1, w, w);
+                    assert forall|x: usize| #[trigger] q.contains(x) && x != w implies q1.contains(x) by {
+                        lemma_contains_push_rev(q1, w, x);
+                    }
+                    assert forall|x: int| 0 <= x < graph.n() implies ((S@.contains(x as usize) || fringe@.contains(x as usize)) <==> !feq(#[trigger] D@[x], f64_max())) by {
+                        if x == w as int {
+                            assert(fringe@.contains(w));
+                        } else {
+                            assert(D@[x] == D0[x]);
+                            assert(x < usize::MAX) by { assert(D@.len() == D.len()); }
+                            assert((x as usize) != w);
+                            if q1.contains(x as usize) { lemma_contains_push(q1, w, x as usize); }
+                            if q.contains(x as usize) { lemma_contains_push_rev(q1, w, x as usize); }
+                            assert(q.contains(x as usize) <==> q1.contains(x as usize));
+                            assert((S@.contains(x as usize) || q1.contains(x as usize)) <==> !feq(D0[x], f64_max()));
+                        }
+                    }
                 }
 //@ before P[w].push(v);
                 let ghost P0 = P@;
+                proof {
+                    axiom_f64_succ_not_max(Dv);
+                    axiom_f64_eq_euclidean(D@[w as int], vw_dist, f64_max());
+                    // feq is symmetric on the machine (Euclidean with a == a needs non-NaN); here: D[w] == vw_dist and vw_dist is not MAX
+                }
 //@ after P[w].push(v);
                 proof {
                     assert forall|a: int, k: int| 0 <= a < P@.len() && 0 <= k < P@[a]@.len() implies has_row_entry(*graph, #[trigger] P@[a]@[k], a as usize) by {
@@ -187,6 +272,14 @@ for adj in row_it: graph.get_successor_nodes_by_index(&v)
                             if k < P0[a]@.len() { assert(P@[a]@[k] == P0[a]@[k]); }
                         } else {
                             assert(P@[a] == P0[a]);
+                        }
+                    }
+                    assert forall|a: int, k: int| 0 <= a < P@.len() && 0 <= k < P@[a]@.len() implies one_level_up(D@, a, #[trigger] P@[a]@[k]) by {
+                        if a == w as int && k == P0[a]@.len() {
+                            assert(P@[a]@[k] == v);
+                        } else {
+                            if a == w as int { assert(P@[a]@[k] == P0[a]@[k]); } else { assert(P@[a] == P0[a]); }
+                            assert(one_level_up(D@, a, P0[a]@[k]));
                         }
                     }
                 }
@@ -280,8 +373,12 @@ for adj in row_it: graph.get_successor_nodes_by_index(&v)
         preds_are_edges(*graph, r.P@),
         // [C05.dijkstra.order_covers_reachable_set]
         order_covers_reachable(*graph, source, r.S@),
+        // [C05.dijkstra.predecessors_are_tight]
+        // every predecessor p listed for w was settled with a length d such that d + weight(p -> w) is w's final tentative distance
+        exists|hist: Seq<(usize, f64)>, seenf: Seq<f64>| #[trigger] preds_tight(*graph, hist, seenf, r.P@),
 //@ before while let Some(fringe_item) = fringe.pop() {
     let ghost mut popped: Set<usize> = Set::empty();
+    let ghost mut hist: Seq<(usize, f64)> = Seq::empty();
     let ghost mut hv: vstd::multiset::Multiset<FringeNode> = heap_view(&fringe);
     proof {
         let it0 = FringeNode { distance: fneg(0.0f64), pred: source, v: source };
@@ -311,6 +408,7 @@ for adj in row_it: graph.get_successor_nodes_by_index(&v)
             hv == heap_view(&fringe),
             forall|x: usize| #![trigger popped.contains(x)] #![trigger S@.contains(x)] popped.contains(x) <==> S@.contains(x),
             preds_are_edges(*graph, P@),
+            preds_tight(*graph, hist, seen@, P@),
             // [C05.dijkstra.nothing_reachable_is_dropped]
             forall|w: int| 0 <= w < graph.n() && !feq(#[trigger] seen@[w], f64_max()) ==> popped.contains(w as usize) || in_heap(heap_view(&fringe), w as usize),
             succ_closed_upto(*graph, popped, heap_view(&fringe), -1, 0),
@@ -333,6 +431,8 @@ for adj in row_it: graph.get_successor_nodes_by_index(&v)
             }
 //@ before S.push(v);
         let ghost S0 = S@;
+        // [C05.dijkstra.settle_only_unsettled] a node enters the visiting order only while it is unsettled (the `continue` guard above)
+        assert(feq(D@[v as int], f64_max()));
 //@ after S.push(v);
         proof {
             popped = popped.insert(v);
@@ -344,8 +444,19 @@ for adj in row_it: graph.get_successor_nodes_by_index(&v)
                 lemma_contains_push_rev(S0, v, x);
             }
         }
+//@ after D[v] = dist;
+        proof {
+            let ghost h0 = hist;
+            hist = hist.push((v, dist));
+            assert forall|w: int, k: int| 0 <= w < P@.len() && 0 <= k < P@[w]@.len() implies tight_pred(*graph, hist, seen@, w, #[trigger] P@[w]@[k]) by {
+                lemma_tight_hist_mono(*graph, h0, (v, dist), seen@, w, P@[w]@[k]);
+            }
+        }
+        let ghost vpos: int = hist.len() - 1;
 //@ loop 2
             invariant
+                0 <= vpos < hist.len() && hist[vpos] == (v, dist),
+                preds_tight(*graph, hist, seen@, P@),
                 graph.wf_nodes(),
                 graph.wf_rows(),
                 source < graph.n(),
@@ -370,6 +481,7 @@ for adj in row_it: graph.get_successor_nodes_by_index(&v)
 //@ after let w = adj.node_index;
             let ghost fringe0 = heap_view(&fringe);
             let ghost P0 = P@;
+            let ghost seen0 = seen@;
             proof {
                 assert(graph.successors_vec@[v as int]@[row_it.index@ as int] == *adj);
                 assert(has_row_entry(*graph, v, w));
@@ -388,6 +500,16 @@ for adj in row_it: graph.get_successor_nodes_by_index(&v)
                     assert forall|a: int, k: int| 0 <= a < P@.len() && 0 <= k < P@[a]@.len() implies has_row_entry(*graph, #[trigger] P@[a]@[k], a as usize) by {
                         if a != w as int { assert(P@[a] == P0[a]); }
                     }
+                    assert forall|a: int, k: int| 0 <= a < P@.len() && 0 <= k < P@[a]@.len() implies tight_pred(*graph, hist, seen@, a, #[trigger] P@[a]@[k]) by {
+                        if a != w as int {
+                            assert(P@[a] == P0[a] && seen@[a] == seen0[a]);
+                            assert(tight_pred(*graph, hist, seen0, a, P0[a]@[k]));
+                        } else {
+                            assert(P@[a]@[k] == v);
+                            assert(hist[vpos].0 == v && graph.successors_vec@[v as int]@[row_it.index@ as int].node_index == w);
+                            assert(seen@[a] == fadd(hist[vpos].1, graph.successors_vec@[v as int]@[row_it.index@ as int].weight));
+                        }
+                    }
                 }
 //@ after P[w].push(v);
                 proof {
@@ -396,6 +518,16 @@ for adj in row_it: graph.get_successor_nodes_by_index(&v)
                             if k < P0[a]@.len() { assert(P@[a]@[k] == P0[a]@[k]); }
                         } else {
                             assert(P@[a] == P0[a]);
+                        }
+                    }
+                    assert forall|a: int, k: int| 0 <= a < P@.len() && 0 <= k < P@[a]@.len() implies tight_pred(*graph, hist, seen@, a, #[trigger] P@[a]@[k]) by {
+                        if a == w as int && k == P0[a]@.len() {
+                            assert(P@[a]@[k] == v);
+                            assert(hist[vpos].0 == v && graph.successors_vec@[v as int]@[row_it.index@ as int].node_index == w);
+                            assert(feq(fadd(hist[vpos].1, graph.successors_vec@[v as int]@[row_it.index@ as int].weight), seen@[a]));
+                        } else {
+                            if a == w as int { assert(P@[a]@[k] == P0[a]@[k]); } else { assert(P@[a] == P0[a]); }
+                            assert(tight_pred(*graph, hist, seen0, a, P0[a]@[k]));
                         }
                     }
                 }
